@@ -44,13 +44,28 @@ def seq_case(h, situation, length):
             if a == A_START and r in (0, -1) and st1 == 0 and nctx1 != 0: rt.record_violation('assert', tag + 'start finished with state empty but %d contexts remain' % nctx1)
             if rt.PS.violations: break
         if not rt.PS.violations:
-            # the VM must still be usable: (abort if halted), then a fresh script runs to completion
-            if h.state(vm) in (1, 3): h.execute(vm, A_ABORT)
+            # the VM must still be usable: (abort if halted), then a fresh script runs to completion - driven by start, by line steps or by
+            # assembly steps (symbolic choice); when no script was left over, nothing but the fresh script may execute (an aborted script stays dead)
+            aborted_now = h.state(vm) in (1, 3) and h.execute(vm, A_ABORT) == 0
+            leftover = h.N['w_vm_context_count'](vm)
             h.reset_obs()
-            r = h.run(vm, 'trace__ [100]; trace__ [101];')
+            # step-driven probes only right after an abort that discarded everything: the VM is then in the documented 'no script loaded' situation, from
+            # which stepping a newly loaded script works on a fresh VM; after a script merely *finished* under stepping the real code keeps its finished
+            # context selected until the next start, which the property does not forbid
+            mode = C01.choose('probe', 3) if aborted_now and leftover == 0 and h.state(vm) == 0 else 0
+            ptext = 'trace__ [100];\ntrace__ [101];'
+            if mode == 0: r = h.run(vm, ptext)
+            else:
+                push(ptext); r = 0; n = 0
+                while n < 60:
+                    r = h.execute(vm, A_LSTEP if mode == 1 else A_ASTEP); n += 1
+                    if h.N['w_vm_context_count'](vm) == 0 or h.state(vm) not in (0, 1) or r not in (0, -1): break
             probe = [v for v in h.traces if v in ([100.0], [101.0])]
+            how = ('start', 'line steps', 'assembly steps')[mode]
             if probe != [[100.0], [101.0]] or h.state(vm) != 0:
-                rt.record_violation('assert', 'from %s, after %s: the VM no longer runs a fresh script (result %d, state %d, traces %r, log %r)' % (situation, ' '.join(hist), r, h.state(vm), h.traces[:4], [l[2][:60] for l in h.logs[:2]]))
+                rt.record_violation('assert', 'from %s, after %s: the VM no longer runs a fresh script by %s (result %d, state %d, traces %r, log %r)' % (situation, ' '.join(hist), how, r, h.state(vm), h.traces[:4], [l[2][:60] for l in h.logs[:2]]))
+            elif leftover == 0 and h.traces != probe:
+                rt.record_violation('assert', 'from %s, after %s: with no script left, running a fresh script by %s also executed %r (a discarded script came back)' % (situation, ' '.join(hist), how, [v for v in h.traces if v not in probe][:4]))
         return dict(text='%s: %s' % (situation, ' '.join(hist)), n=len(hist))
     return case
 
@@ -102,7 +117,7 @@ def run(ctx):
     L = 3 if tier == 'quick' else 4
     cases = [('%s.len%d' % (s_, L), seq_case(h, s_, L)) for s_ in ('none', 'loaded', 'finished', 'failed')]
     def key(cid, v, rr): return 'ctl:%s' % v.get('msg', '')[:110].replace(' ', '_')
-    r = oblig.run('ctl.seq', cases, ctx, funcs, 'all %d-action sequences over {start, stop, abort, assembly_step, line_step, leave_scope} from 4 start situations (6^%d x 4 = %d sequences), each followed by a usability probe' % (L, L, 4 * 6 ** L),
+    r = oblig.run('ctl.seq', cases, ctx, funcs, 'all %d-action sequences over {start, stop, abort, assembly_step, line_step, leave_scope} from 4 start situations (6^%d x 4 = %d sequences), each followed by a usability probe (a fresh script driven to its end by start, by line steps or by assembly steps - symbolic choice - which must run completely and alone)' % (L, L, 4 * 6 ** L),
                   assumptions=['single thread: the controller issues actions between executor returns (thread interleavings are not applicable)', 'allocation failure is out of scope'], case_timeout=2400, keyfn=key, step_limit=400_000_000,
                   sample_fn=lambda rr: dict(sequence=rr.get('text')) if rr.get('text') else None)
     if r:
